@@ -225,12 +225,13 @@ def run(chk, tier, seed):
     results = pmap(run_case, cases, chunk=16, timeout=900, progress=f"C14 {tier} lattice")
     # an exception on a request that is not a documented rejection is re-executed once in a process of its own before
     # it is believed (DESIGN section 9); if it does not come back the second execution is the observation
-    again = [i for i, r in enumerate(results) if not (is_error(r) or is_timeout(r)) and r["status"] == "raised" and not r["expected_rejection"]]
     nonrepro = []
-    for i, r in zip(again, pmap(run_case, [cases[i] for i in again], chunk=1, timeout=900)):
-        if not (is_error(r) or is_timeout(r)) and r["status"] != "raised":
-            nonrepro.append(f"{key(cases[i])}: {results[i]['msg'][:120]}")
-            results[i] = r
+    for _attempt in (1, 2):  # at most two fresh processes per case
+        again = [i for i, r in enumerate(results) if not (is_error(r) or is_timeout(r)) and r["status"] == "raised" and not r["expected_rejection"]]
+        for i, r in zip(again, pmap(run_case, [cases[i] for i in again], chunk=1, timeout=900)):
+            if not (is_error(r) or is_timeout(r)) and r["status"] != "raised":
+                nonrepro.append(f"{key(cases[i])}: {results[i]['msg'][:120]}")
+                results[i] = r
     chk.extra["exceptions_not_reproduced_in_a_fresh_process"] = nonrepro
     chk.excluded += len(nonrepro)
     worst = {}
